@@ -90,6 +90,7 @@ class Registry:
         from nutils import types
         self.tab = classtab
         self.cls = {}
+        self._registered = set()
         import builtins
         for key, c in classtab.items():
             base = c['base']
@@ -135,7 +136,8 @@ class Registry:
             m = sys.modules.get(c['mod'])
             if m is None:
                 m = sys.modules[c['mod']] = pytypes.ModuleType(c['mod'])
-            if not hasattr(m, c['qual']):
+            if (c['mod'], c['qual']) not in self._registered:     # the first class of that name is the importable one
+                self._registered.add((c['mod'], c['qual']))
                 setattr(m, c['qual'], cls)
             self.cls[key] = cls
 
@@ -403,7 +405,7 @@ def random_term(rng, depth, hashable=False, used=None):
         for n in shape:
             size *= n
         vals = ','.join(str(rng.randrange(0, 2)) for _ in range(size))
-        route = rng.choice(['C', 'F'] + (['view'] if len(shape) == 1 and size else []) + (['T'] if len(shape) == 2 else []))
+        route = rng.choice(['C'] + (['F'] if shape else []) + (['view'] if len(shape) == 1 and size else []) + (['T'] if len(shape) == 2 else []))
         return [k, [dt, vals, route], [_sc('int', str(n)) for n in shape]]
     if k == 'arraydata':
         knd = rng.choice(['int', 'int', 'bool', 'float', 'complex'])
@@ -415,6 +417,8 @@ def random_term(rng, depth, hashable=False, used=None):
         routes = dict(int=['native', 'i32', 'i16', 'u8', 'list', 'be', 'F', 'wrap', 'reshape'], bool=['native', 'list', 'wrap'],
                       float=['native', 'f32', 'list', 'F'], complex=['native', 'c64', 'list'])[knd]
         route = rng.choice(routes)
+        if route == 'F' and not shape:
+            route = 'native'      # numpy.asfortranarray promotes 0-d to 1-d
         if size == 0 and route == 'list' and knd != 'float':
             route = 'native'      # numpy.asarray([]) is float64
         return [k, [knd, vals, route], [_sc('int', str(n)) for n in shape]]
